@@ -52,6 +52,11 @@ func propC08(c *Ctx) {
 					_, f := boolEdges(ex)
 					exF = append(exF, f...)
 				}
+				// … or tested through a helper that reports the error member as a Go error (C07's summaries)
+				for _, root := range respRootsOf(d) {
+					fe, _ := existsFalseEdges(d.Parent(), root, existsFn, w.Fn("jrpc2", "(*NumHash).error"))
+					exF = append(exF, fe...)
+				}
 				if freg.OnlyThrough(d, u, isNil) && freg.OnlyThrough(d, u, exF) && freg.Dominates(d, u) {
 					good = true
 				}
